@@ -84,7 +84,10 @@ def graph_rewrite(t: Term) -> Term | None:
 def rewriter(*fs):
     def rw(t: Term) -> Term:
         for f in fs:
-            r = f(t)
+            try:
+                r = f(t)
+            except (IndexError, TypeError, KeyError, ValueError):
+                r = None  # a term shape the rewrite does not know: leave it alone
             if r is not None:
                 t = r
         return t
